@@ -9,6 +9,7 @@ EMATCH = {"smt.mbqi": False, "smt.auto_config": False}
 
 def engine(root, files, schema, axioms=()):
     core.DEFS.clear()
+    core._MAT_CACHE.clear()
     repo = Repo(root)
     for p in files:
         repo.load(p)
